@@ -5,6 +5,7 @@ import (
 	"os"
 	"strconv"
 	"strings"
+	"sync"
 
 	lib "github.com/ilius/libgostarcal"
 	"github.com/ilius/libgostarcal/cal_types"
@@ -67,7 +68,7 @@ type rule struct {
 	mlen             func(y, m int) int
 	noYear0          bool
 	ys               []int // year start day numbers, index y - ruleYmin
-	built            bool
+	once             sync.Once
 }
 
 const ruleYmin, ruleYmax = -130000, 130000
@@ -95,10 +96,9 @@ func (r *rule) yearLen(y int) int {
 	return s
 }
 
-func (r *rule) build() {
-	if r.built {
-		return
-	}
+func (r *rule) build() { r.once.Do(r.build1) }
+
+func (r *rule) build1() {
 	r.ys = make([]int, ruleYmax-ruleYmin+2)
 	// first day of the anchor year
 	s := r.anchorJd - (r.anchorD - 1)
@@ -113,7 +113,6 @@ func (r *rule) build() {
 	for i := a; i > ruleYmin; i-- {
 		r.ys[i-1-ruleYmin] = r.ys[i-ruleYmin] - r.yearLen(r.ext(i-1))
 	}
-	r.built = true
 }
 
 // date of day jd obtained by counting from the anchor with the rule
@@ -367,7 +366,9 @@ func calHandler(args []string) (string, []string) {
 	if !ok {
 		return "bad-request", nil
 	}
-	c.setup()
+	if !inStorm {
+		c.setup()
+	}
 	nums := make([]int, len(args)-2)
 	for i, a := range args[2:] {
 		v, err := strconv.Atoi(a)
